@@ -845,7 +845,21 @@ CONTRACT_OBSERVERS = {"contract", "get_contractor", "contract_slice", "gen_outpu
 QUERY_OBSERVERS = {"contract_stats", "totals", "get_path", "has_preprocessing"}
 
 
+OP_CPU_LIMIT = 10.0  # seconds of CPU time for ONE operation on a <= 12 tensor network (they take milliseconds)
+
+
+class _OpDidNotReturn(BaseException):
+    """BaseException so that no `except Exception` inside the library swallows it."""
+
+
+def _on_vtalrm(signum, frame):
+    raise _OpDidNotReturn()
+
+
 def run_case(prop, case):
+    import signal
+    import threading as _threading
+
     import cotengra as ctg
     from sim import seams as _seams
 
@@ -919,8 +933,25 @@ def run_case(prop, case):
                     ("tensordot_axes" in i or "einsum_eq" in i) for i in target.info.values()):
                 counters["probe:mutation_with_warm_cache"] += 1
                 warm = True
+            use_timer = _threading.current_thread() is _threading.main_thread()
             try:
-                kind, info = _apply(ctg, op, trees, net, clk, pools, counters, log)
+                if use_timer:
+                    signal.signal(signal.SIGVTALRM, _on_vtalrm)
+                    signal.setitimer(signal.ITIMER_VIRTUAL, OP_CPU_LIMIT)
+                try:
+                    kind, info = _apply(ctg, op, trees, net, clk, pools, counters, log)
+                finally:
+                    if use_timer:
+                        signal.setitimer(signal.ITIMER_VIRTUAL, 0)
+            except _OpDidNotReturn:
+                # CPU-time watchdog (process CPU, so machine load does not matter): the operation is still running
+                # after OP_CPU_LIMIT seconds on a tiny network; there is no value / no figures to compare at all
+                counters["probe:operation_did_not_return"] += 1
+                violations.append({"oracle": "operation-did-not-return",
+                                   "detail": f"step {step} {name} still running after {OP_CPU_LIMIT:g} s of CPU time "
+                                             f"(history so far: {[o['op'] for o in case['ops'][:step + 1]]})",
+                                   "sig": {"last_op": name}})
+                break
             except OpSkip:
                 counters["skip:" + name] += 1
                 log.add("skip", step, name)
@@ -1007,7 +1038,7 @@ DEFAULTS = {
 
 def minimise(prop, case, v):
     cls = violation_class(v)
-    budget = [250]
+    budget = [250 if v["oracle"] != "operation-did-not-return" else 40]  # every confirming run of a hang costs OP_CPU_LIMIT
 
     def fails_case(c):
         if budget[0] <= 0:
